@@ -60,7 +60,7 @@ Lemma ex_v00_cell : exists bs jp, spec_v00 ex_v00 = Ok bs /\ parse_pose bs = Som
   js_cell (jp_frame jp 0%Z) 1 [97; 98] 0 89 = Some (VF32 1086324736) /\ jp_nframes jp = 2%Z.
 Proof. eexists. eexists. split; [vm_compute; reflexivity|]. split; [vm_compute; reflexivity|]. vm_compute. repeat split; reflexivity. Qed.
 
-(* ---- F5: a format whose confidence letter is not the last one ("CXY"), written by Pose.write ---- *)
+(* ---- a format whose confidence letter is not the last one ("CXY"), written by Pose.write (F5, fixed) ---- *)
 Definition ex_cxy : wpose :=
   {| w_dims := (1, 1, 1)%Z;
      w_comps := [ {| wc_name := [99]; wc_format := [67; 88; 89]; wc_points := [[97]; [98]]; wc_limbs := []; wc_colors := [] |} ];
@@ -69,19 +69,20 @@ Definition ex_cxy : wpose :=
      w_data := [4607182418800017408; 4611686018427387904; 4613937818241073152; 4616189618054758400];   (* 1 2 / 3 4 *)
      w_cshape := [1; 1; 2];
      w_conf := [4602678819172646912; 4598175219545276416] |}.                                           (* 0.5 0.25 *)
-(* Python: point a = (1.0, 2.0) confidence 0.5.  JavaScript: a.C = 0.5 where the first letter's coordinate is 1.0;
-   a.Y = 3.0, which is point b's first coordinate. *)
-Lemma js_format_order_refuted_w : exists p bs py jp c,
+(* Python: point a = (1.0, 2.0) confidence 0.5, point b = (3.0, 4.0) confidence 0.25.  JavaScript (after fix F5): the
+   letter "X" at position 1 is the coordinate of index 0, "Y" at position 2 the coordinate of index 1, "C" the confidence -
+   the hypotheses of js_index_eq are met by a format whose confidence letter comes first. *)
+Lemma js_format_cxy_example : exists p bs py jp c,
   write_pose p = Ok bs /\ wf_arrays p /\ 1 <= nth 3 (w_shape p) 0 /\ Forall wcomp_plain (w_comps p) /\
   run_plain full_read_prog {| pbuf := bs; poff := 0 |} = Ok (py, {| pbuf := bs; poff := lenN bs |}) /\
   parse_pose bs = Some jp /\ nth_error (h_comps (p_header py)) 0 = Some c /\
-  (* letter "C" at position 0 < D: the Python coordinate is data[0][0][0][0] *)
-  nth_error (c_format c) 0 = Some 67 /\
-  tget 0 (py_data (p_body py)) [0; 0; 0; 0]%nat = 1065353216 /\
+  c_format c = [67; 88; 89] /\ coord_index (c_format c) 1 = 0%nat /\ coord_index (c_format c) 2 = 1%nat /\
+  tget 0 (py_data (p_body py)) [0; 0; 0; 0]%nat = 1065353216 /\ tget 0 (py_data (p_body py)) [0; 0; 0; 1]%nat = 1073741824 /\
   js_cell (jp_frame jp 0%Z) 0 (c_name c) 0 67 = Some (VF32 1056964608) /\
-  (* letter "Y" at position 2 = D: no Python coordinate; JavaScript reports data[0][0][1][0] *)
-  nth_error (c_format c) 2 = Some 89 /\
-  js_cell (jp_frame jp 0%Z) 0 (c_name c) 0 89 = Some (VF32 (tget 0 (py_data (p_body py)) [0; 0; 1; 0]%nat)).
+  js_cell (jp_frame jp 0%Z) 0 (c_name c) 0 88 = Some (VF32 1065353216) /\
+  js_cell (jp_frame jp 0%Z) 0 (c_name c) 0 89 = Some (VF32 1073741824) /\
+  js_cell (jp_frame jp 0%Z) 0 (c_name c) 1 88 = Some (VF32 (tget 0 (py_data (p_body py)) [0; 0; 1; 0]%nat)) /\
+  js_cell (jp_frame jp 0%Z) 0 (c_name c) 1 67 = Some (VF32 1048576000).
 Proof.
   exists ex_cxy. eexists. eexists. eexists. eexists.
   split; [vm_compute; reflexivity|]. split; [split; reflexivity|]. split; [cbn; lia|].
